@@ -445,7 +445,7 @@ func handleZINCRBY(params internal.HandlerFuncParams) ([]byte, error) {
 	if _, err = set.AddOrUpdate(
 		[]MemberParam{
 			{Value: member, Score: increment}},
-		"xx",
+		nil,
 		nil,
 		nil,
 		"incr"); err != nil {
